@@ -295,6 +295,8 @@ type c18Keys struct {
 	Len       map[string]int `json:"key_lengths"` // -1 = absent
 	UserToken bool           `json:"enable_user_token"`
 	ViaEnv    bool           `json:"via_env"`
+	UserSign  int            `json:"user_token_signing_key_length,omitempty"` // 0 = none (user tokens are then encrypted only, C15), 1, 31, 32, 48
+	QueryKey  int            `json:"query_token_key_length,omitempty"`        // > 0: host selection is exactly "signed" with a key of that length (1, 31, 32)
 }
 
 var c18KeyNames = []string{"PAATokenSigningKey", "PAATokenEncryptionKey", "UserTokenEncryptionKey", "SessionKey", "SessionEncryptionKey"}
@@ -307,7 +309,11 @@ func TestC18_LOAD(t *testing.T) {
 			c.Len[k] = rapid.SampledFrom([]int{-1, 0, 1, 31, 32, 32, 32}).Draw(t, k)
 		}
 		c.HostSel = rapid.SampledFrom([]string{"", "", "roundrobin", "unsigned", "any", "Signed", "SIGNED", " signed", "signed ", "sIgNeD"}).Draw(t, "hostsel")
-		if c.ViaEnv && strings.TrimSpace(c.HostSel) == "signed" {
+		c.UserSign = rapid.SampledFrom([]int{0, 0, 1, 31, 32, 48}).Draw(t, "userSign")
+		if rapid.IntRange(0, 2).Draw(t, "signedMode") == 0 {
+			c.QueryKey = rapid.SampledFrom([]int{1, 31, 32, 32}).Draw(t, "queryKeyLen")
+			c.HostSel = "signed"
+		} else if c.ViaEnv && strings.TrimSpace(c.HostSel) == "signed" {
 			c.HostSel = "Signed" // values from the environment are trimmed: that is exactly "signed", which Load refuses by exiting
 		}
 		return c
@@ -341,6 +347,23 @@ func TestC18_LOAD(t *testing.T) {
 				os.Unsetenv(e)
 			}
 		}()
+		userSign, queryKey := strings.Repeat("u", c.UserSign), strings.Repeat("q", c.QueryKey)
+		if c.UserSign > 0 {
+			if c.ViaEnv {
+				envs = append(envs, "RDPGW_SECURITY__USER_TOKEN_SIGNING_KEY")
+				os.Setenv("RDPGW_SECURITY__USER_TOKEN_SIGNING_KEY", userSign)
+			} else {
+				sec["UserTokenSigningKey"] = userSign
+			}
+		}
+		if c.QueryKey > 0 {
+			if c.ViaEnv {
+				envs = append(envs, "RDPGW_SECURITY__QUERY_TOKEN_SIGNING_KEY")
+				os.Setenv("RDPGW_SECURITY__QUERY_TOKEN_SIGNING_KEY", queryKey)
+			} else {
+				sec["QueryTokenSigningKey"] = queryKey
+			}
+		}
 		if c.HostSel != "" {
 			if c.ViaEnv {
 				envs = append(envs, "RDPGW_SERVER__HOST_SELECTION")
@@ -373,6 +396,26 @@ func TestC18_LOAD(t *testing.T) {
 		// Load returned instead of exiting: main() goes on to start with this configuration
 		if a.Server.HostSelection == "signed" && a.Security.QueryTokenSigningKey == "" {
 			return viol("c18/load-returns-signed-without-key", "config.Load accepted host selection %q without a query-token key and returned mode \"signed\": the gateway would start", c.HostSel)
+		}
+		// the two keys that may be absent: a short one must not be run with either
+		if c.UserToken {
+			if n := len(a.Security.UserTokenSigningKey); n > 0 && n < 32 {
+				return viol("c18/short-key-kept/UserTokenSigningKey", "user tokens enabled with a signing key of length %d: the instance runs with a key of length %d (env %v)", c.UserSign, n, c.ViaEnv)
+			}
+			if c.UserSign >= 32 && a.Security.UserTokenSigningKey != userSign {
+				return viol("c18/configured-key-replaced", "UserTokenSigningKey: a configured key of %d characters was not kept", c.UserSign)
+			}
+		}
+		if c.QueryKey > 0 {
+			if a.Server.HostSelection != "signed" {
+				return viol("c18/host-selection-changed", "host selection \"signed\" became %q", a.Server.HostSelection)
+			}
+			if n := len(a.Security.QueryTokenSigningKey); n < 32 {
+				return viol("c18/short-key-kept/QueryTokenSigningKey", "signed host selection with a query-token key of length %d: the instance runs with a key of length %d (env %v)", c.QueryKey, n, c.ViaEnv)
+			}
+			if c.QueryKey == 32 && a.Security.QueryTokenSigningKey != queryKey {
+				return viol("c18/configured-key-replaced", "QueryTokenSigningKey: a configured 32-character key was not kept")
+			}
 		}
 		for _, k := range c18KeyNames {
 			if k == "UserTokenEncryptionKey" && !c.UserToken {
